@@ -66,7 +66,7 @@ type MetadataPersister interface {
 	GetHeaderChildren(ctx context.Context, name string) ([]*Header, error)
 	GetRootPath(ctx context.Context) (string, error)
 	GetHeaderDirectChildren(ctx context.Context, name string, limit int) ([]*Header, error)
-	DeleteHeader(ctx context.Context, name string, lastknownrecord, lastknownblock int64) (*Header, error)
+	DeleteHeader(ctx context.Context, name string, linkname string, lastknownrecord, lastknownblock int64) (*Header, error)
 	GetLastIndexedRecordAndBlock(ctx context.Context, recordSize int) (int64, int64, error)
 	PurgeAllHeaders(ctx context.Context) error
 }
